@@ -172,7 +172,11 @@ def gen_cases(rng, tier):
             for k in ('plain', 'inc'):
                 if k == 'inc' and size == 'medium' and rng.random() < 0.5:
                     continue
-                items.append((size, m, k, doc, prev_of[m] if k == 'inc' else 'x'))
+                prev = prev_of[m] if k == 'inc' else 'x'
+                if k == 'inc' and rng.random() < 0.3:
+                    # bytes before the file header (offsets are then relative to the first %PDF-, /repo bb85a17)
+                    prev = xb(rng.choice([b'junk\n', b'\x00\x00', b'%PD %PDF', b'GET / HTTP/1.0\r\n\r\n'])) + prev[1:]
+                items.append((size, m, k, doc, prev))
     refs = ref_pass(exe, [((m, k), doc, prev) for _, m, k, doc, prev in items])
     cases = []
     for (size, m, k, doc, prev), ref in zip(items, refs):
